@@ -29,7 +29,8 @@ func init() {
 			"R5b ocidebug.New wraps exactly the registry it was given; R11 (shared with C07.R4) the %w discipline of the wire path. " +
 			"R12 the client verifies a body under the algorithm of the descriptor's digest (digest.NewDigest(D.Algorithm(), h) compared with D), never a fixed one. " +
 			"R13 the router separates the repository name from the path with suffix / last-occurrence operations only (a name may contain /blobs/uploads, /manifests/, … as path elements). " +
-			"R14 (shared with C04.R8) a refused blobWriter.Write keeps nothing; R15 (shared with C05.R6) the client's listing iterators are re-runnable.",
+			"R14 (shared with C04.R8) a refused blobWriter.Write keeps nothing; R15 (shared with C05.R6) the client's listing iterators are re-runnable. " +
+			"R16 (shared with C04.R10) every successful return of blobWriter.Write lies behind the update of w.size (must-pass-through on the CFG).",
 		NotDecided: "equality of bytes/descriptors on values, URL escaping of unusual names, behaviour under server options, and the Construct->Parse round trip on values are not decided.",
 		Technique:  "static analysis: extraction of request literals and dispatch table from SSA, comparison with reviewed tables, argument provenance, header-name set agreement",
 	})
@@ -111,6 +112,7 @@ func runC03(c *core.Ctx) {
 	routerSplitsAtTheLastKeyword(c, "C03.R13")
 	failedMethodLeavesState(c, "C03.R14", "ociclient", "blobWriter", "Write")
 	listingIteratorsRerunnable(c, "C03.R15", []string{"ociclient"}, 1)
+	successfulMethodPassesThrough(c, "C03.R16", "ociclient", "blobWriter", "Write", "size")
 }
 
 // describe a value stored into a Request field in terms of method fn's parameters.
